@@ -157,8 +157,10 @@ pub fn config_for(kind: Kind, g: u32) -> Vec<u8> {
     match kind {
         Kind::Blk => {
             let mut c = Kind::Blk.default_config();
+            // Even generations: a disk below 2^32 sectors (upper half zero); odd generations: a
+            // large one. A resize thus crosses the 2^32 boundary in both directions.
             c[0..4].copy_from_slice(&(0x1111_0000u32 + g).to_le_bytes());
-            c[4..8].copy_from_slice(&(0x2222_0000u32 + g).to_le_bytes());
+            c[4..8].copy_from_slice(&(if g % 2 == 0 { 0 } else { 0x2222_0000u32 + g }).to_le_bytes());
             c
         }
         Kind::Socket => {
